@@ -56,6 +56,12 @@ def run(project: Project, rep, tier: str):
         if ev["kind"] == "shape-error":
             rep.refuted("SW-AUG", fi, ev["node"], f"the two projected vectors do not have equal length for all sizes: "
                                                   f"{ev['message']}")
+        if ev["kind"] == "sort-columns":
+            rep.refuted("SW-AVG", fi, ev["node"],
+                        "a diagram's birth and death columns are sorted independently (np.sort(..., axis=0)) to decide the "
+                        "distance: different diagrams with the same births and the same deaths, paired differently, are "
+                        "treated as equal (P=[[0,2],[1,3]], Q=[[0,3],[1,2]]: true distance 1.29)",
+                        construct=f"{SW}: column-wise sort shortcut")
     if not isinstance(r, Sc) or unmodelled_in(r.e):
         rep.unmodelled("SW-DEG", fi, fi.node, f"result not fully modelled: {unmodelled_in(r.e) if isinstance(r, Sc) else r!r}")
         return
